@@ -97,6 +97,13 @@ def c04(tr):
             pushed = after[FIL] - before[FIL]
             if not close(pushed, it.u_step.dfil, TOL):
                 out.append(F("c04_amount", it, "forwarded command pushes %r mm of filament, the file specifies %r" % (pushed, it.u_step.dfil)))
+        if it.kind == "g" and not it.open_before and not it.opening:
+            # deposited plastic (advance of the filament high-water mark) outside an episode equals the file's:
+            # an owed recovery may precede the command, but nothing may be extruded on top of it
+            dep_f = last_snap(it)[HWM] - it.f_before[HWM]
+            dep_u = it.u_after[HWM] - it.u_before[HWM]
+            if not close(dep_f, dep_u, TOL):
+                out.append(F("c04_deposit", it, "forwarded commands deposit %r mm of filament outside a region, the file deposits %r" % (dep_f, dep_u)))
         if not it.open_after and it.kind in ("g", "at"):
             pf = last_snap(it)
             if not close(pf[E], it.u_after[E], TOL):
@@ -123,6 +130,13 @@ def c05(tr, firmware):
             last_g10 = it.u_step.read
         if df > max_du + TOL:
             out.append(F("c05_deeper", it, "filament retracted %r mm, deepest retraction requested by the file so far is %r" % (df, max_du)))
+        if it.kind == "g" and not it.open_before and not it.opening:
+            # "recovered exactly once": outside an episode the forwarded list advances the filament high-water
+            # mark exactly as the file's command does (a second recovery would show up as extra deposit)
+            dep_f = pf[HWM] - it.f_before[HWM]
+            dep_u = pu[HWM] - it.u_before[HWM]
+            if dep_f > dep_u + TOL:
+                out.append(F("c05_recovered_twice", it, "forwarded commands advance the filament %r mm beyond its previous maximum, the file's command %r" % (dep_f, dep_u)))
         if df < du - TOL:
             out.append(F("c05_shallower", it, "filament retracted %r mm, the file currently assumes %r" % (df, du)))
         printing = (it.kind == "g" and it.u_step is not None and it.u_step.is_move and it.u_step.dfil > 0
